@@ -442,6 +442,13 @@ func dumpValue(b *strings.Builder, v reflect.Value, depth int) {
 	}
 }
 
+func (r *result) frames0() string {
+	if len(r.frames) > 0 {
+		return r.frames[0]
+	}
+	return "unknown"
+}
+
 func (r *result) String() string {
 	switch {
 	case !r.ran:
@@ -487,7 +494,7 @@ func classify(kind int, x []byte, res *[nBackings]result) (c1, c2 string) {
 			if len(res[b].frames) > 0 {
 				fn = res[b].frames[0]
 			}
-			return "C01:panic:" + fn, ""
+			return "C01:panic:" + fn + ":" + panicShape(res[b].pval), ""
 		}
 	}
 	for b := 0; b < nBackings; b++ {
@@ -506,6 +513,34 @@ func classify(kind int, x []byte, res *[nBackings]result) (c1, c2 string) {
 		c1, c2 = c2, ""
 	}
 	return
+}
+
+// panicShape reduces a panic value to its form: "runtime error: slice bounds out of range [60:59]"
+// becomes "slice-bounds-out-of-range-N-N", "... [:30] with capacity 0" becomes
+// "slice-bounds-out-of-range-N-with-capacity-N". Two faults in one function differ in it.
+func panicShape(pval string) string {
+	pval = strings.TrimPrefix(pval, "runtime error: ")
+	var b strings.Builder
+	last := byte('-')
+	for i := 0; i < len(pval) && b.Len() < 60; i++ {
+		c := pval[i]
+		switch {
+		case c >= '0' && c <= '9':
+			c = 'N'
+			if last == 'N' {
+				continue
+			}
+		case c >= 'a' && c <= 'z' || c >= 'A' && c <= 'Z':
+		default:
+			c = '-'
+			if last == '-' {
+				continue
+			}
+		}
+		b.WriteByte(c)
+		last = c
+	}
+	return strings.TrimSuffix(b.String(), "-")
 }
 
 // judge is the full oracle with messages and reproducing tests.
@@ -533,10 +568,14 @@ func judge(kind int, x, rem []byte, res *[nBackings]result) []verdict {
 				}
 			}
 			msg := fmt.Sprintf("%s(%s) (%d octets) panics in %s: %s  [stack, innermost first: %s]; panicking backings: %s",
-				entry, hx, len(x), strings.TrimPrefix(cl, "C01:panic:"), res[first].pval, strings.Join(res[first].frames, " < "), strings.Join(pb, "; "))
+				entry, hx, len(x), res[first].frames0(), res[first].pval, strings.Join(res[first].frames, " < "), strings.Join(pb, "; "))
 			if len(other) > 0 {
-				msg += ". From the other backings the same octets give: " + strings.Join(other, " | ") +
-					" - inside spare capacity the decoder reads octets beyond the input's length instead of panicking"
+				msg += ". From the other backings the same octets give: " + strings.Join(other, " | ")
+				if res[bExact].panicked {
+					msg += " - inside spare capacity the decoder reads octets beyond the input's length instead of panicking"
+				} else {
+					msg += " - the outcome depends on octets beyond the input's length"
+				}
 			}
 			out = append(out, verdict{cl, msg, goTestPlain(kind, x, first, rem, "panics on the unchanged library: "+res[first].pval)})
 		case strings.HasPrefix(cl, "C01:overread-length:"):
